@@ -32,6 +32,10 @@ const (
 
 var ChunkNames = [...]string{"burst", "all", "mss", "tiny", "one", "rand", "boundary", "mix"}
 
+// SpinThreshold is the number of consecutive terminal read errors after which
+// a caller that keeps reading is reported as spinning.
+const SpinThreshold = 1000
+
 // Fault kinds.
 const (
 	FaultStall    = "stall"     // delivery pauses for Dur when Offset bytes were delivered
@@ -111,6 +115,8 @@ type Conn struct {
 	wrTimer  *time.Timer
 	rdWait   chan struct{}
 	wrWait   chan struct{}
+
+	deadReads int
 
 	Writes    []WriteRec
 	Deadlines []DeadlineRec
@@ -432,6 +438,20 @@ func (c *Conn) Read(b []byte) (int, error) {
 			done = false
 		}
 		if done {
+			if err != nil && !os.IsTimeout(err) {
+				// an endpoint that keeps reading a connection that has already
+				// told it, a thousand times, that it is over is spinning: it
+				// consumes no input and virtual time does not pass
+				c.deadReads++
+				if c.deadReads == SpinThreshold {
+					s.LogLocked("read", c.name+" err "+errClass(err))
+					s.Unlock()
+					s.Violate("spin/dead-connection-read-again-and-again", fmt.Sprintf("%s: Read has now returned %q %d times in a row on a connection that is over; the caller keeps calling it without consuming input or letting time pass (busy loop)", c.name, errClass(err), c.deadReads))
+					return n, err
+				}
+			} else if err == nil && n > 0 {
+				c.deadReads = 0
+			}
 			if err != nil {
 				s.LogLocked("read", c.name+" err "+errClass(err))
 			} else {
